@@ -30,7 +30,8 @@ def jumper_kwargs(bib):
     if bib not in KW['bibs']:
         KW['bibs'].append(bib)
     i = KW['bibs'].index(bib)
-    return {'order': 1, 'non_scorer': i == 1, 'team': 'T%d' % (i % 2), 'category': 'OPEN', 'first_name': 'N%d' % i}
+    # order: 1, '1', 1, '2', 1, '3' ... (two athletes with the same position, positions typed as text as a pasted card has them)
+    return {'order': (str(i // 2 + 1) if i % 2 else 1), 'non_scorer': i == 1, 'team': 'T%d' % (i % 2), 'category': 'OPEN', 'first_name': 'N%d' % i}
 
 
 def add(c, bib):
